@@ -12,6 +12,7 @@ import (
 	"path/filepath"
 	"runtime"
 	"runtime/debug"
+	"runtime/pprof"
 	"sort"
 	"strconv"
 	"strings"
@@ -71,6 +72,12 @@ func Main() {
 	case "driver":
 		driver()
 	case "worker":
+		if f := os.Getenv("VERIF_CPUPROFILE"); f != "" { // profiling aid
+			if fh, err := os.Create(f); err == nil {
+				pprof.StartCPUProfile(fh)
+				defer pprof.StopCPUProfile()
+			}
+		}
 		worker()
 	case "one":
 		one()
